@@ -457,6 +457,17 @@ class Schema(dict, metaclass=LogicalMeta):
         #
         # return super().update(values)
 
+    def setdefault(self, key: str, default=None):
+        if key in self:
+            return self[key]
+        self.__setitem__(key, default)
+        # parsed (or ignored as an additional key) by __setitem__
+        return self[key] if key in self else default
+
+    def __ior__(self, other):
+        self.update(other)
+        return self
+
     # def __copy__(self):
     #     return self.copy()
 
